@@ -40,6 +40,7 @@ def main() -> int:
     ap.add_argument("--tier", default=os.environ.get("VERIF_TIER", "quick"), choices=["quick", "thorough"])
     ap.add_argument("--replay", default=None)
     ap.add_argument("--only", default=None, help="comma separated run indices (debugging)")
+    ap.add_argument("--no-evidence", action="store_true", help="do not rewrite the evidence file (self-tests)")
     args = ap.parse_args()
     from simkit import seeds, report
     import importlib
@@ -66,6 +67,8 @@ def main() -> int:
     else:
         eng.check(rep, args.tier, master, only)
     rep.coverage["eager_import"] = info
+    if args.no_evidence:
+        report.EVIDENCE_DIR = os.path.join("/tmp", "simkit-noevidence")
     return rep.finish(rep.coverage, rep.assumptions)
 
 
